@@ -8,10 +8,10 @@ RULE = ("(a) calculate_tcorr(calculate_xi(t)) = t and monotonic decrease of xi o
         "0.3-15 T (thorough: 60 x 12 points); (b) enhancement and T1 data synthesised from the published ODNP model with known "
         "k_sigma (5-95), p_1/2 over two decades, spin concentrations 50 uM-10 mM, T10 < T100, the three smax models, linear and "
         "second-order T1 interpolation, 8-40 power points, fields 0.3-15 T: hydration must return k_sigma, k_rho, k_low, coupling "
-        "factor, correlation time, local diffusivity and the bulk ratios; the closed-form outputs are also compared with the "
+        "factor, correlation time, local diffusivity and the bulk ratios (default constants and, in every third call, the caller's own); the closed-form outputs are also compared with the "
         "Lean model evaluated exactly on the same inputs; (c) the same inputs in legacy units (uM, mT, ps) give identical "
         "results; non-trivial = every synthesised data set")
-CONST = {"ksigma_bulk": 95.4, "krho_bulk": 353.4, "klow_bulk": 366, "tcorr_bulk": 54e-12, "D_H2O": 2.3e-9, "D_SL": 4.1e-10}
+CONST0 = {"ksigma_bulk": 95.4, "krho_bulk": 353.4, "klow_bulk": 366, "tcorr_bulk": 54e-12, "D_H2O": 2.3e-9, "D_SL": 4.1e-10}
 
 
 def synth(rng, interp, smax_model, field=None):
@@ -60,7 +60,7 @@ def synth(rng, interp, smax_model, field=None):
     data = {"E_array": E, "E_powers": p, "T1_array": T1f(pT), "T1_powers": pT, "T10": T10, "T100": T100, "spin_C": spin_C,
             "magnetic_field": field, "smax_model": smax_model, "interpolate_method": interp}
     truth = {"ksigma": ksigma, "krho": krho, "coupling_factor": xi, "tcorr": tcorr_ps * 1e-12, "klow": (5 * krho - 7 * ksigma) / 3,
-             "Dlocal": CONST["tcorr_bulk"] / (tcorr_ps * 1e-12) * (CONST["D_H2O"] + CONST["D_SL"]), "smax": smax, "w": w, "T1E": T1E}
+             "Dlocal": CONST0["tcorr_bulk"] / (tcorr_ps * 1e-12) * (CONST0["D_H2O"] + CONST0["D_SL"]), "smax": smax, "w": w, "T1E": T1E}
     return data, extra, truth
 
 
@@ -97,6 +97,16 @@ def run(tier, seed, escalate=False):
                 data, extra, truth = synth(rng, interp, smodel)
                 n_eval += 1
                 label = "%s:%s" % (interp, smodel if isinstance(smodel, str) else "float")
+                # the caller's own bulk constants in every third call (the calls before and after rely on the defaults, so
+                # anything one call leaves behind for the next shows up as a wrong ratio there)
+                CONST = dict(CONST0)
+                if _ % 3 == 1:
+                    custom = {"ksigma_bulk": rng.uniform(50, 150), "krho_bulk": rng.uniform(200, 500), "klow_bulk": rng.uniform(200, 500),
+                              "tcorr_bulk": rng.uniform(20e-12, 90e-12), "D_H2O": rng.uniform(1e-9, 4e-9), "D_SL": rng.uniform(1e-10, 9e-10)}
+                    for kk in rng.sample(sorted(custom), rng.randint(1, 6)):
+                        CONST[kk] = custom[kk]; extra[kk] = custom[kk]
+                    truth["Dlocal"] = CONST["tcorr_bulk"] / truth["tcorr"] * (CONST["D_H2O"] + CONST["D_SL"])
+                    label += ":own-constants"
                 try:
                     with warnings.catch_warnings():
                         warnings.simplefilter("ignore")
@@ -132,7 +142,7 @@ def run(tier, seed, escalate=False):
                 leg = copy.deepcopy(data)
                 leg["spin_C"] = data["spin_C"] * 1e6
                 leg["field"] = leg.pop("magnetic_field") * 1e3
-                lconst = dict(extra, tcorr_bulk=54.0)
+                lconst = dict(extra, tcorr_bulk=CONST["tcorr_bulk"] * 1e12)
                 if "macro_C" in lconst:
                     lconst["macro_C"] = lconst["macro_C"] * 1e6
                 try:
